@@ -6,9 +6,15 @@
 // (<=24 orders), applied by the REAL ApplyDiff to a copy of the REAL RocksDB
 // compiled from A, for v1 and v2 keys; the result must equal the RocksDB
 // compiled from B as a map key -> multiset of values. Faulty diffs (one
-// undeletable "-" line or one malformed line at every position) must return an
-// error and leave the store untouched. Chains are searched breadth-first over
-// the exact store content (value order included).
+// undeletable "-" line or one malformed line at every position) and diffs whose
+// INPUT fails (reader error after k bytes, over-long line, bytes after the last
+// line; input.go) must return an error and leave the store untouched; other
+// encodings of a diff (CRLF, blank and '#' lines, no final newline) are all or
+// nothing. Bulk files give diffs of up to 150 lines (more records than the
+// batch is allocated for - rdb.DefaultBatchSize is scaled down to 64 by this
+// harness' OVERLAY - and more text than the line scanner's first buffer).
+// Chains are searched breadth-first over the exact store content (value order
+// included).
 package main
 
 import (
@@ -37,15 +43,15 @@ type compiled struct {
 }
 
 type world struct {
-	r       *vlib.Run
-	scratch string
-	states  []*state
-	comp    [][]*compiled // [layout][state]
-	timing  bool
-	t0      time.Time
-	fams    []family
-	p       params
-	child   *job // non-nil in a worker process
+	r        *vlib.Run
+	scratch  string
+	states   []*state
+	comp     [][]*compiled // [layout][state]
+	timing   bool
+	t0       time.Time
+	fams     []family
+	p        params
+	child    *job          // non-nil in a worker process
 	onResult func(*result) // parent: called with every worker result of the current phase
 }
 
